@@ -363,40 +363,27 @@ def rule_struct(report, prog, res):
             report.check(have >= need, 'C07-R5', k, f.loc(x),
                          'read %s needs size >= %d but only size >= %d is established on every path and no handler converts %s to DecodeError'
                          % (norm(x), need, have, exc[0]), detail='need %d have %d' % (need, have))
-    # TLV decoder: header and value reads are converted; the per type conversions read exactly the L byte of V
+    # TLV decoder: folded (checker's own evaluator) for every type code 0..12 and every value length 0..5 (and 255), with the value
+    # inside the buffer, cut short, and limited by `size`: the text either returns or raises DecodeError -- the conversions of the
+    # per type branches never meet struct.error / IndexError themselves
     pd = prog.func(PDU + '.Parameter.decode')
-    for x in walk_no_nested(pd.node):
-        if not (isinstance(x, ast.Call) and norm(x.func) in ('struct.unpack_from', 'struct.unpack')):
-            continue
+    tlv = c11.TlvFold(prog)
+    for t in range(0, 13):
         n += 1
-        k = key(pd.qname, 'TLV read inside the value or converted to DecodeError', x)
-        if _handler_converts(x, pd, ('struct.error',)):
-            report.ok('C07-R5', k, pd.loc(x), detail='handler converts struct.error')
-            continue
-        sz = _fmt_size(x.args[0])
-        buf = norm(x.args[1]) if len(x.args) > 1 else None
-        exact = norm(x.func) == 'struct.unpack'
-        st = enclosing_stmt(x)
-        branch = getattr(st, '_parent', None)
-        facts = []      # facts on L established by earlier raise-guards of the same branch
-        if isinstance(branch, ast.If) and st in branch.body:
-            for g in branch.body[:branch.body.index(st)]:
-                if isinstance(g, ast.If) and not g.orelse and isinstance(g.body[-1], ast.Raise) and 'DecodeError' in norm(g.body[-1]):
-                    b = match(g.test, 'L != $N')
-                    if b is not None and isinstance(try_const(b['N']), int):
-                        facts.append(('eq', try_const(b['N'])))
-                    b = match(g.test, 'L == $N')
-                    if b is not None and try_const(b['N']) == 0:
-                        facts.append(('ge', 1))
-        okk = False
-        if buf == 'V' and isinstance(sz, int):
-            okk = any((kind == 'eq' and (v == sz if exact else v >= sz)) for kind, v in facts)
-        elif buf == 'V' and isinstance(sz, tuple) and exact:
-            # size L + k with k == 0 needs the %d count L-1 >= 0
-            okk = sz[1] == 0 and any(kind == 'ge' and v >= 1 or kind == 'eq' and v >= 1 for kind, v in facts)
-        report.check(okk, 'C07-R5', k, pd.loc(x),
-                     '%s: the length L of the value is not tested to match the format before the conversion (struct.error instead of DecodeError)' % norm(x))
-    report.floor('C07-R5 reads', n, 18)
+        why = None
+        for L in (0, 1, 2, 3, 4, 5, 255):
+            for data, size in ((bytes([t, L]) + b'\x21' * L, None), (bytes([t, L]) + b'\x21' * L, L + 2), (bytes([t, L]) + b'\x21' * max(L - 1, 0), None),
+                               (bytes([t, L]) + b'\x21' * L, L + 1), (bytes([t]), None)):
+                r = tlv.decode(data, 0, size)
+                if r[0] == 'return' or (r[0] == 'raise' and r[1].startswith('DecodeError(')):
+                    continue
+                why = 'decode(%s, 0, %r) -> %s %s' % (data[:8].hex() + ('..' if len(data) > 8 else ''), size, r[0], r[1])
+                break
+            if why:
+                break
+        report.check(why is None, 'C07-R5', key(pd.qname, 'TLV type %d: any length is decoded or refused with DecodeError' % t), pd.loc(),
+                     'Parameter.decode: %s (struct.error / IndexError instead of DecodeError, or a form the evaluator cannot fold)' % why)
+    report.floor('C07-R5 reads', n, 20)
 
 
 def rule_client_waits(report, prog):
